@@ -124,6 +124,18 @@ unsafe extern "C" {
     fn lol_html_element_remove(e: *mut c_void);
     fn lol_html_element_remove_and_keep_content(e: *mut c_void);
     fn lol_html_element_is_removed(e: *mut c_void) -> bool;
+    fn lol_html_element_user_data_set(e: *mut c_void, ud: *mut c_void);
+    fn lol_html_element_user_data_get(e: *mut c_void) -> *mut c_void;
+    fn lol_html_element_clear_end_tag_handlers(e: *mut c_void);
+    fn lol_html_text_chunk_user_data_set(e: *mut c_void, ud: *mut c_void);
+    fn lol_html_text_chunk_user_data_get(e: *mut c_void) -> *mut c_void;
+    fn lol_html_text_chunk_is_removed(e: *mut c_void) -> bool;
+    fn lol_html_comment_user_data_set(e: *mut c_void, ud: *mut c_void);
+    fn lol_html_comment_user_data_get(e: *mut c_void) -> *mut c_void;
+    fn lol_html_comment_is_removed(e: *mut c_void) -> bool;
+    fn lol_html_doctype_user_data_set(e: *mut c_void, ud: *mut c_void);
+    fn lol_html_doctype_user_data_get(e: *mut c_void) -> *mut c_void;
+    fn lol_html_doctype_is_removed(e: *mut c_void) -> bool;
     fn lol_html_element_is_self_closing(e: *mut c_void) -> bool;
     fn lol_html_element_can_have_content(e: *mut c_void) -> bool;
     fn lol_html_element_source_location_bytes(e: *mut c_void) -> lol_html_source_location_bytes_t;
@@ -167,6 +179,7 @@ struct World {
     late_strings: Vec<lol_html_str_t>,
     strings_late: bool,
     ignore_setter_errors: bool,
+    probe: bool,
     /// last-error texts taken after failing write()/end()/build() calls
     error_texts: Vec<String>,
     drops: usize,
@@ -267,6 +280,20 @@ unsafe fn streamer(w: *mut World, c: &Content) -> lol_html_streaming_handler_t {
         (*w).streams_created += 1;
     }
     lol_html_streaming_handler_t { user_data: ctx.cast(), write_all_callback: Some(stream_write_cb), drop_callback: Some(stream_drop_cb), reserved: std::ptr::null_mut() }
+}
+
+/// `Scenario.probe` through the C entry points (mirrors `probe_unit!` of the Rust driver).
+macro_rules! c_probe {
+    ($w:expr, $reg:expr, $u:expr, $get:ident, $set:ident, $removed:ident) => {{
+        let w: &mut World = unsafe { &mut *$w };
+        if w.probe {
+            let prev = unsafe { $get($u) } as usize;
+            unsafe { $set($u, ($reg + 1) as *mut c_void) };
+            let now = unsafe { $get($u) } as usize;
+            let removed = unsafe { $removed($u) };
+            w.evs.push(Ev::OpResult { reg: $reg, op: 9999, res: format!("probe:prev={prev},now={now},removed={removed}") });
+        }
+    }};
 }
 
 #[derive(PartialEq, Clone, Copy)]
@@ -444,9 +471,11 @@ unsafe extern "C" fn element_cb(e: *mut c_void, ud: *mut c_void) -> c_int {
                 let rc = unsafe { lol_html_element_has_attribute(e, n.as_ptr().cast(), n.len()) };
                 unsafe { (*wp).evs.push(Ev::OpResult { reg: c.reg, op: i, res: format!("has:{}", rc == 1) }) };
             }
+            ElOp::ClearEndTag => unsafe { lol_html_element_clear_end_tag_handlers(e) },
             ElOp::StBefore(_) | ElOp::StAfter(_) | ElOp::StReplace(_) | ElOp::StRemove => {}
         }
     }
+    c_probe!(wp, c.reg, e, lol_html_element_user_data_get, lol_html_element_user_data_set, lol_html_element_is_removed);
     if inj == Inject::After { LOL_HTML_STOP } else { LOL_HTML_CONTINUE }
 }
 
@@ -475,6 +504,7 @@ unsafe extern "C" fn text_cb(t: *mut c_void, ud: *mut c_void) -> c_int {
             }
         }
     }
+    c_probe!(wp, c.reg, t, lol_html_text_chunk_user_data_get, lol_html_text_chunk_user_data_set, lol_html_text_chunk_is_removed);
     if inj == Inject::After { LOL_HTML_STOP } else { LOL_HTML_CONTINUE }
 }
 
@@ -507,6 +537,7 @@ unsafe extern "C" fn comment_cb(cm: *mut c_void, ud: *mut c_void) -> c_int {
             }
         }
     }
+    c_probe!(wp, c.reg, cm, lol_html_comment_user_data_get, lol_html_comment_user_data_set, lol_html_comment_is_removed);
     if inj == Inject::After { LOL_HTML_STOP } else { LOL_HTML_CONTINUE }
 }
 
@@ -529,6 +560,7 @@ unsafe extern "C" fn doctype_cb(d: *mut c_void, ud: *mut c_void) -> c_int {
     if let HandlerSpec::Doctype { remove: true } = &c.spec {
         unsafe { lol_html_doctype_remove(d) };
     }
+    c_probe!(c.world, c.reg, d, lol_html_doctype_user_data_get, lol_html_doctype_user_data_set, lol_html_doctype_is_removed);
     if inj == Inject::After { LOL_HTML_STOP } else { LOL_HTML_CONTINUE }
 }
 
@@ -582,6 +614,7 @@ pub fn run(sc: &Scenario, v: CVariant) -> Result<CRun, String> {
         late_strings: vec![],
         strings_late: v.strings_late,
         ignore_setter_errors: v.ignore_setter_errors,
+        probe: sc.probe,
         error_texts: vec![],
         drops: 0,
         streams_created: 0,
